@@ -521,7 +521,7 @@ class Spec:
             t = ln.split()
             tag = t[0]
             if t[-1].startswith('!'):
-                clause = {'get': 'get', 'getall': 'get', 'row': 'get_components', 'exists': 'entity_exists', 'has': 'has_component',
+                clause = {'get': 'get', 'getall': 'get', 'row': 'get_components', 'exists': 'entity_exists', 'has': 'has_component', 'hasx': 'has_component',
                           'entities': 'entities', 'procs': 'processors-order', 'gp': 'get_processor',
                           'ish': 'registered-iff-attached'}.get(tag, tag)
                 raise Mismatch(clause, f'query `{" ".join(t[:-1])}` raised {t[-1][1:]}')
@@ -534,9 +534,13 @@ class Spec:
                     dup = len(set(split_list(t[2]))) != len(split_list(t[2]))
                     raise Mismatch('get-lists-pair-twice' if dup else 'get', f'get({T}) = {t[2]}, required {w}')
             elif tag == 'hasx':
-                if len(set(t[2:5])) != 1:
-                    raise Mismatch('has_component', f'queries by the protocol type EventHandler disagree for entity '
-                                   f'{t[1]}: has_component={t[2]} get_component={t[3]} get()={t[4]}')
+                for j, name in zip(range(2, len(t), 3), ('the protocol EventHandler', 'collections.abc.Hashable',
+                                                         'collections.abc.Sized', 'an ABC the component classes '
+                                                         'are registered with')):
+                    if len(set(t[j:j + 3])) != 1:
+                        raise Mismatch('has_component', f'queries by {name} (no base class of any component) '
+                                       f'disagree for entity {t[1]}: has_component={t[j]} '
+                                       f'get_component={t[j + 1]} get()={t[j + 2]}')
             elif tag == 'getall':
                 want = sorted(e * 100000 + c for e, row in self.attached.items() for c in row.values())
                 w = ','.join(f'{p // 100000}:{p % 100000}' for p in want) or '-'
